@@ -1,5 +1,5 @@
 """backtesting.helpers: ExchangeObjectContainer (C05) and small helpers."""
-from pyvc.contracts import contract, specfun
+from pyvc.contracts import contract, specfun, class_invariant
 
 H = "basana.backtesting.helpers."
 C = H + "ExchangeObjectContainer."
@@ -19,16 +19,20 @@ specfun("cont_pos", ["c"],
         "      0 <= c.pos[c._items[k]] and c.pos[c._items[k]] < seq_len(c._open_items) "
         "      and same_object(seq_at(c._open_items, c.pos[c._items[k]]), c._items[k])))")
 specfun("cont_inv", ["c"], "cont_keys(c) and cont_listed(c) and cont_nodup(c) and cont_pos(c)")
+# ownership-style class invariant: clients never carry it (private fields are only written here; closing an item
+# preserves it -- lemma C05.container.stable)
+class_invariant("ExchangeObjectContainer",
+                [("keys", "cont_keys(self)"), ("listed", "cont_listed(self)"), ("nodup", "cont_nodup(self)"), ("pos", "cont_pos(self)")],
+                private=["_items", "_open_items", "_reindex_every", "_reindex_counter", "pos"], props=["C05"])
+
 specfun("in_cont", ["c", "x"], "(x._id in c._items) and same_object(c._items[x._id], x)")
 
 contract(C + "__init__", props=P,
-         ensures=[("inv", "cont_inv(self)"), ("empty", "forall(lambda k=Str: not (k in self._items)) and seq_len(self._open_items) == 0")],
+         ensures=[("empty", "forall(lambda k=Str: not (k in self._items)) and seq_len(self._open_items) == 0")],
          modifies=["self"])
 
 contract(C + "add", props=P, types={"item": "$T"},
-         requires=[("inv", "cont_inv(self)")],
-         ensures=[("inv_keys", "cont_keys(self)"), ("inv_listed", "cont_listed(self)"), ("inv_nodup", "cont_nodup(self)"), ("inv_pos", "cont_pos(self)"),
-                  ("added", "in_cont(self, item)"),
+         ensures=[("added", "in_cont(self, item)"),
                   ("others", "forall(lambda k=Str: implies(k != item._id, ((k in self._items) == old(k in self._items)) "
                              "and implies(k in self._items, same_object(self._items[k], old(self._items[k])))))"),
                   ("was_new", "not old(item._id in self._items)")],
@@ -38,16 +42,14 @@ contract(C + "add", props=P, types={"item": "$T"},
 
 contract(C + "get", props=P, types={"id": "Str"}, returns="Opt[$T]", modifies=[],
          ensures=[("lookup", "is_none(result) == (not (id in self._items))"),
-                  ("value", "implies(id in self._items, same_object(result, self._items[id]))")])
+                  ("value", "implies(id in self._items, same_object(result, self._items[id]) and result._id == id)")])
 
 # generator, consumer side: every yielded item is a registered, currently open item that was registered when the
 # iteration started and has not been yielded before (SEEN); at exhaustion every item that was registered at the start
 # and is open now has been yielded.  The generator itself only rebinds _open_items / bumps the counter.
 contract(C + "get_open", props=P, verify=False,
          notes="generator: producer side verified separately (DESIGN B4); this is the consumer-side contract",
-         requires=[("inv", "cont_inv(self)")],
          yields={"type": "$T", "facts": [("registered", "in_cont(self, item) and old(in_cont(self, item))"),
                                          ("open", "is_open_obj(item)")]},
-         ensures=[("inv", "cont_inv(self)"),
-                  ("all_yielded", "forall(lambda o=T: implies(old(in_cont(self, o)) and in_cont(self, o) and is_open_obj(o), o in SEEN))")],
+         ensures=[("all_yielded", "forall(lambda o=T: implies(old(in_cont(self, o)) and in_cont(self, o) and is_open_obj(o), o in SEEN))")],
          modifies=["self._reindex_counter", "self._open_items"])
